@@ -106,7 +106,7 @@ class Unit:
 
     # ---------------------------------------------------------------------------------------------
     def extract(self, header, block, tline):
-        parts = [p.strip() for p in header[len("//@ extract "):].split("::")]
+        parts = [p.strip() for p in header[len("//@ extract "):].split(" :: ")]
         kind_rel = parts[0].split()
         kind, rel = kind_rel[0], kind_rel[1]
         s = self.src(rel)
